@@ -80,6 +80,21 @@ let check id what model obs =
   else Printf.printf "MISMATCH %s %s model=%s\n" id what
       (if S.length model > 600 then S.sub model 0 600 ^ "..." else model)
 
+(* C07_ranges_cover_any_bytes evaluated on the case: the entries of an ACCEPTED sample add up to its size, every
+   clear count fits 16 bits and there is at least one entry (checks/c07.py counts the accepted R/Q/H cases) *)
+let covered = ref 0
+let cover_ok (sample : coq_N list) (r : ssp list res) : bool =
+  match r with
+  | Ok l ->
+    incr covered;
+    l <> [] && L.for_all (fun p -> int_of_n p.ss_clear < 65536) l &&
+    L.fold_left (fun a p -> a + int_of_n p.ss_clear + int_of_n p.ss_prot) 0 l = L.length sample
+  | _ -> true
+
+let check_ranges id what sample r obs =
+  if cover_ok sample r then check id what (res_string string_of_ranges r) obs
+  else Printf.printf "MISMATCH %s %s model-entries-do-not-partition-the-sample\n" id what
+
 let fragment_case id sch (protf : coq_N list -> ssp list res) key iv cb sb samples before trafc obs =
   let key = bytes_of_hex key in
   let iv = pad_iv (bytes_of_hex iv) in
@@ -118,16 +133,19 @@ let () =
   iter_lines (fun line ->
       match split_on '\t' line with
       | ["R"; id; codec; sch; samplehex; hdrs; obs] ->
-        let r = protect_ranges_r (isvideo_of codec) (mk_hdr hdrs) (scheme_of sch) (bytes_of_hex samplehex) in
-        check id "ranges" (res_string string_of_ranges r) obs
+        let sample = bytes_of_hex samplehex in
+        let r = C07WrapModel.protect_ranges_w (isvideo_of codec) (mk_hdr hdrs) (scheme_of sch) sample in
+        check_ranges id "ranges" sample r obs
       | ["Q"; id; spss; ppss; sch; samplehex; obs] ->
         (* AVC ranges with the slice-header size computed by the C15 Gallina parsers from the avcC parameter sets *)
-        let r = protect_ranges_r avc_is_video (avc_hdr spss ppss) (scheme_of sch) (bytes_of_hex samplehex) in
-        check id "ranges(C15 header size)" (res_string string_of_ranges r) obs
+        let sample = bytes_of_hex samplehex in
+        let r = C07WrapModel.protect_ranges_w avc_is_video (avc_hdr spss ppss) (scheme_of sch) sample in
+        check_ranges id "ranges(C15 header size)" sample r obs
       | ["H"; id; spss; ppss; sch; samplehex; obs] ->
         (* HEVC ranges with the slice segment header size computed by the C15 Gallina HEVC parsers from the hvcC parameter sets *)
-        let r = protect_ranges_r hevc_is_video (hevc_hdr spss ppss) (scheme_of sch) (bytes_of_hex samplehex) in
-        check id "ranges(C15 HEVC header size)" (res_string string_of_ranges r) obs
+        let sample = bytes_of_hex samplehex in
+        let r = C07WrapModel.protect_ranges_w hevc_is_video (hevc_hdr spss ppss) (scheme_of sch) sample in
+        check_ranges id "ranges(C15 HEVC header size)" sample r obs
       | ["A"; id; rng; c; p; obs] ->
         let r = append_protect_range (ranges_of_string rng) (n_of_hex c) (n_of_hex p) in
         check id "append" (res_string string_of_ranges r) obs
@@ -151,25 +169,25 @@ let () =
         (* EncryptFragment: codec a = AVC, h = HEVC, u = audio *)
         let protf =
           if codec = "u" then audio_protect_ranges
-          else protect_ranges_r (isvideo_of codec) (mk_hdr hdrs) (scheme_of sch) in
+          else C07WrapModel.protect_ranges_w (isvideo_of codec) (mk_hdr hdrs) (scheme_of sch) in
         fragment_case id sch protf key iv cb sb samples before trafc obs
       | ["G"; id; sch; codec; spss; ppss; key; iv; cb; sb; samples; before; trafc; obs] ->
         (* EncryptFragment with getAVCProtFunc / getHEVCProtFunc of the model (maps from the avcC / hvcC NAL units,
            slice header sizes from the C15 parsers) *)
         let protf =
           if codec = "a" then
-            (match C07CodecModel.avc_prot_func (nalus_of spss) (nalus_of ppss) (scheme_of sch) with
+            (match C07WrapModel.avc_prot_func_w (nalus_of spss) (nalus_of ppss) (scheme_of sch) with
              | Ok f -> f | _ -> (fun _ -> Err))
-          else C07CodecModel.hevc_prot_func (nalus_of spss) (nalus_of ppss) (scheme_of sch) in
+          else C07WrapModel.hevc_prot_func_w (nalus_of spss) (nalus_of ppss) (scheme_of sch) in
         fragment_case id sch protf key iv cb sb samples before trafc obs
       | ["T"; id; sch; codec; spss; ppss; key; iv; cb; sb; before; traf; after; samples; obs] ->
         (* EncryptFragment over the bytes of the fragment *)
         let protf =
           if codec = "u" then audio_protect_ranges
           else if codec = "a" then
-            (match C07CodecModel.avc_prot_func (nalus_of spss) (nalus_of ppss) (scheme_of sch) with
+            (match C07WrapModel.avc_prot_func_w (nalus_of spss) (nalus_of ppss) (scheme_of sch) with
              | Ok f -> f | _ -> (fun _ -> Err))
-          else C07CodecModel.hevc_prot_func (nalus_of spss) (nalus_of ppss) (scheme_of sch) in
+          else C07WrapModel.hevc_prot_func_w (nalus_of spss) (nalus_of ppss) (scheme_of sch) in
         let boxes x = if x = "-" then [] else samples_of x in
         let f = { C07TrafModel.bf_before = boxes before; bf_traf = boxes traf; bf_after = boxes after;
                   bf_samples = samples_of samples } in
